@@ -352,6 +352,48 @@ partial def simLoop (inp out : IO.FS.Stream) (sim : Sim) : IO Unit := do
     if !toks.isEmpty then out.putStrLn s!"bad-line {line.trimAscii.toString}"
     simLoop inp out sim
 
+/-! ## ownership scenarios (stream S8) -/
+
+def parseOwnerStage (part : String) : Option (Bytes × Stage) :=
+  match (part.trimAscii.toString.splitOn " ").filter (· != "") with
+  | [] => none
+  | sp :: arts =>
+    let stg := arts.foldl (fun (stg : Stage) t =>
+      match t.splitOn ":" with
+      | [io, p, fl] =>
+        let a : Art := { path := unhex p, isDir := fl.contains 'd', noRec := fl.contains 'r', skip := fl.contains 's' || io == "i" }
+        if io == "o" then { stg with outputs := stg.outputs ++ [a] } else { stg with inputs := stg.inputs ++ [a] }
+      | _ => stg) {}
+    some (unhex sp, stg)
+
+def ownerVerdict (line : String) : String :=
+  let wa := Dud.Facts.ownerWalkAccumulates
+  let rev := Dud.Facts.addStageChecksReverse
+  let stages := (line.splitOn "|").filterMap parseOwnerStage
+  let rec go (k : Nat) (idx : Index) : List (Bytes × Stage) → String × String × Option Index
+    | [] => ("ok", "ok", some idx)
+    | (sp, stg) :: r =>
+      if !stg.validate wa sp then (toString k, "ok", none)
+      else match addStage wa rev idx sp stg with
+        | .error e => ("ok", s!"{k}:{e}", none)
+        | .ok idx' => go (k + 1) idx' r
+  let (v, a, res) := go 0 [] stages
+  let r := match res with
+    | none => "na"
+    | some idx =>
+      let sorted := idx.toArray.qsort (fun x y => decide (x.1 < y.1)) |>.toList
+      match loadIndex wa rev sorted [] with
+      | .ok _ => "ok"
+      | .error _ => "err"
+  s!"v={v} a={a} r={r}"
+
+partial def ownerLoop (inp out : IO.FS.Stream) : IO Unit := do
+  let line ← inp.getLine
+  if line.isEmpty then return ()
+  let l := line.trimAscii.toString
+  if !l.isEmpty then out.putStrLn (ownerVerdict l)
+  ownerLoop inp out
+
 partial def b3Loop (inp out : IO.FS.Stream) (hexMode : Bool) : IO Unit := do
   let line ← inp.getLine
   if line.isEmpty then return ()
@@ -372,6 +414,7 @@ def main (args : List String) : IO UInt32 := do
   match args with
   | ["sim"] => simLoop inp out {}; return 0
   | ["b3"] => b3Loop inp out false; return 0
+  | ["owner"] => ownerLoop inp out; return 0
   | ["b3hex"] => b3Loop inp out true; return 0
   | _ =>
     IO.eprintln "usage: dudmodel sim|b3|b3hex"
